@@ -1,7 +1,7 @@
 (* Layer I: src/series/downsample.rs, src/series/downsample/repair.rs, src/series.rs, src/builder.rs *)
 From Coq Require Import List NArith Bool Arith.
 From Coq Require Import Strings.Byte.
-Require Import BS.Bytes BS.Common BS.FS BS.Meta BS.Header BS.Reader BS.Index BS.Data BS.Seek.
+Require Import BS.Bytes BS.Common BS.Api BS.FS BS.Meta BS.Header BS.Reader BS.Index BS.Data BS.Seek.
 Require BSgen.Consts.
 Import ListNotations.
 Close Scope N_scope. Open Scope nat_scope.
@@ -143,7 +143,6 @@ Definition series_open (name:fname) (popt:option N) (caches:list N) (cb:cbmode) 
   ret ({| s_data := d; s_down := down; s_cb := cb; s_range := rng |}, user_header).
 
 (* builder open(): create_new=false path incl. the header comparison *)
-Inductive hdropt := HdrAny | HdrIs (h:list byte).
 Definition builder_open (name:fname) (popt:option N) (hdr:hdropt) (caches:list N) (cb:cbmode) : M (series * list byte) :=
   let* (s, in_file) := series_open name popt caches cb in
   match hdr with
